@@ -70,13 +70,26 @@ class Injected(Exception):
     pass
 
 
-_REC = {"on": False, "events": [], "stage": "Pre"}
+_REC = {"on": False, "events": [], "stage": "Pre", "io_name": None, "io_fired": False, "zones": ()}
+
+
+def _io_target(p: str) -> bool:
+    """inner fault injection: the first creation of a file / directory with the chosen base name, below the sandbox
+    or the system temp dir (never the generator's own log files)"""
+    if _REC["io_name"] is None or _REC["io_fired"]:
+        return False
+    if os.path.basename(p.rstrip("/")) != _REC["io_name"]:
+        return False
+    ap = os.path.realpath(p)
+    return any(ap.startswith(z + os.sep) for z in _REC["zones"]) and not os.path.basename(ap).startswith("pyopenapi_gen")
 
 
 def _audit(event: str, args: tuple) -> None:
     if not _REC["on"]:
         return
+    fire = False
     try:
+        stage = _REC["stage"]
         if event == "open":
             path, mode, flags = args
             if not isinstance(path, (str, bytes, os.PathLike)):
@@ -84,21 +97,33 @@ def _audit(event: str, args: tuple) -> None:
             writing = (isinstance(mode, str) and any(ch in mode for ch in "wax+")) or \
                       (mode is None and isinstance(flags, int) and flags & (os.O_WRONLY | os.O_RDWR | os.O_CREAT))
             if writing:
-                _REC["events"].append((_REC["stage"], "write", os.fspath(path), None))
+                p = os.fsdecode(os.fspath(path))
+                if _io_target(p):
+                    fire = True
+                else:
+                    _REC["events"].append((stage, "write", p, None))
         elif event == "os.mkdir":
-            p = os.fspath(args[0])
+            p = os.fsdecode(os.fspath(args[0]))
             if args[2] in (-1, None) and not os.path.isdir(p):
-                _REC["events"].append((_REC["stage"], "mkdir", p, None))
+                if _io_target(p):
+                    fire = True
+                else:
+                    _REC["events"].append((stage, "mkdir", p, None))
         elif event in ("os.remove", "os.rmdir"):
             if args[1] in (-1, None):
-                _REC["events"].append((_REC["stage"], "remove", os.fspath(args[0]), None))
+                _REC["events"].append(("Final" if _REC["io_fired"] else stage, "remove", os.fspath(args[0]), None))
         elif event == "os.rename":
-            _REC["events"].append((_REC["stage"], "remove", os.fspath(args[0]), None))
-            _REC["events"].append((_REC["stage"], "write", os.fspath(args[1]), None))
+            _REC["events"].append((stage, "remove", os.fspath(args[0]), None))
+            _REC["events"].append((stage, "write", os.fspath(args[1]), None))
         elif event == "shutil.rmtree":
-            _REC["events"].append((_REC["stage"], "rmtree", os.fspath(args[0]), None))
+            _REC["events"].append(("Final" if _REC["io_fired"] else stage, "rmtree", os.fspath(args[0]), None))
     except Exception as e:  # never let the recorder change behaviour
         _REC["events"].append((_REC["stage"], "recorder-error", repr(e), None))
+    if fire:
+        # what FileManager.write_file / ensure_dir (or a direct open / mkdir) sees: the OS refuses the operation
+        _REC["io_fired"] = True
+        _REC["io_stage"] = _REC["stage"]
+        raise OSError(28, "injected I/O failure")
 
 
 def snapshot(root: Path) -> dict[str, list]:
@@ -202,6 +227,8 @@ def _gen(spec_path: Path, root: Path, out_pkg: str, core_pkg: str | None, force:
         if isinstance(e, KeyboardInterrupt):
             raise
         msg = str(e)
+        if "injected I/O failure" in msg:
+            return "fail:IO"
         if type(e).__name__ == "GenerationError" and "Differences found" in msg:
             return "diff"
         return f"error:{type(e).__name__}: {msg[:200]}"
@@ -294,6 +321,11 @@ def run_case(case: dict) -> dict:
         undo = _install(case["fail_at"])
         _REC["events"] = []
         _REC["stage"] = "Pre"
+        fa = case["fail_at"]
+        _REC["io_name"] = fa[3:] if isinstance(fa, str) and fa.startswith("IO:") else None
+        _REC["io_fired"] = False
+        _REC["io_stage"] = None
+        _REC["zones"] = (str(box), os.path.realpath(tempfile.gettempdir()))
         _REC["on"] = True
         try:
             outcome = _gen(spec_path, root, case["out"], case["core"], case["force"], case["post"])
@@ -320,6 +352,9 @@ def run_case(case: dict) -> dict:
                 first = rel.split(os.sep)[0]
                 if first == "pyopenapi_gen_file_write_debug.log":
                     continue
+                if first.startswith("pyopenapi_gen") and os.sep not in rel:
+                    evs.append([st, kind, "S/" + first])  # the emitters' error logs (informational: outside the root)
+                    continue
                 if tmp_root is None and kind == "mkdir" and os.sep not in rel:
                     tmp_root = first
                 if tmp_root is not None and first == tmp_root:
@@ -334,7 +369,7 @@ def run_case(case: dict) -> dict:
         created = sorted(k for k in after if k not in before)
         deleted = sorted(k for k in before if k not in after)
         modified = sorted(k for k in after if k in before and after[k] != before[k])
-        return {"input": case, "obs": {"outcome": outcome, "events": evs, "created": created, "deleted": deleted,
+        return {"input": case, "obs": {"outcome": outcome, "io_stage": _REC.get("io_stage"), "events": evs, "created": created, "deleted": deleted,
                                        "modified": modified,
                                        "before": [[k, v[0], toks.get(k, 0)] for k, v in sorted(before.items())]}}
     finally:
@@ -426,16 +461,19 @@ def oracle(case_obs: dict) -> list[str]:
             fails.append("non-force generation over an existing output package wrote or removed something under the "
                          "project root (restored afterwards)")
         # result: match -> success, difference or failure -> raises
-        injected = case["fail_at"] is not None and o["outcome"] == "fail:" + case["fail_at"]
+        injected = case["fail_at"] is not None and (o["outcome"] == "fail:" + case["fail_at"] or (
+            case["fail_at"].startswith("IO:") and o["outcome"] == "fail:IO"))
         if str(case["fail_at"]).startswith("Write#") and o["outcome"] == "ok" and case["existing"] in (
                 "different", "coredifferent"):
             fails.append("existing output differs from what would be generated but generation did not raise")
-        if case["fail_at"] is None:
+        if case["fail_at"] is None or (case["fail_at"].startswith("IO:") and o["outcome"] != "fail:IO"):
             if case["existing"] in ("different", "coredifferent") and o["outcome"] != "diff":
                 fails.append("existing output differs from what would be generated but generation did not raise")
             if case["existing"] == "equal" and case["core"] is None and not case["post"] and o["outcome"] != "ok":
                 fails.append("existing output matches what would be generated but generation raised")
-        elif not injected and o["outcome"].startswith("fail:"):
+        if o.get("io_stage") is not None and o["outcome"] == "ok":
+            fails.append("an I/O failure part-way through a non-force generation was swallowed: the call reported success")
+        elif case["fail_at"] is not None and not injected and o["outcome"].startswith("fail:"):
             fails.append("failure reported for a stage that was not the injected one")
     # containment, every mode
     bad = sorted({p[2:] for _, _, p in under_root if p != "R" and not allowed_rel(case, p[2:])}
@@ -456,8 +494,9 @@ def c_path(comps: list[str]) -> str:
 
 
 def _abs(p: str) -> list[str]:
-    """'R/a/b' -> ['R','a','b'] ; 'T' -> ['T']"""
-    return p.split("/")
+    """'R/a/b' -> ['R','a','b'] ; the TemporaryDirectory 'T/x' -> ['S','T','x'] below the system temp dir 'S'"""
+    parts = p.split("/")
+    return ["S"] + parts if parts[0] == "T" else parts
 
 
 def c_case(case_obs: dict) -> str:
@@ -466,11 +505,12 @@ def c_case(case_obs: dict) -> str:
     tags, models = spec_names(case["spec"])
     cwd = ["R"] if case.get("cwd_root") else ["B", "cwd"]
     core = copt(case["core"], lambda c: clist(cstr(x) for x in c.split(".")))
-    cfg = (f"{{| root := {c_path(['R'])}; tmp := {c_path(['T'])}; cwd := {c_path(cwd)}; "
+    cfg = (f"{{| root := {c_path(['R'])}; tmp := {c_path(['S', 'T'])}; cwd := {c_path(cwd)}; "
            f"out_pkg := {clist(cstr(x) for x in case['out'].split('.'))}; core_pkg := {core}; "
            f"force := {cbool(case['force'])}; post := {cbool(case['post'])}; "
            f"tags := {clist(cstr(t) for t in tags)}; models := {clist(cstr(m) for m in models)} |}}")
-    fail = copt(case["fail_at"], lambda x: x)
+    io = isinstance(case["fail_at"], str) and case["fail_at"].startswith("IO:")
+    fail = cstr(case["fail_at"][3:]) if io else copt(case["fail_at"], lambda x: x)
     fs = [cpair(c_path(["R"]), "Dir")]
     for rel, kd, tok in o["before"]:
         fs.append(cpair(c_path(["R"] + rel.split("/")), "Dir" if kd == "d" else f"(File {tok})"))
@@ -479,14 +519,16 @@ def c_case(case_obs: dict) -> str:
         n, st = "0", "None"
     elif oc == "diff":
         n, st = "1", "None"
+    elif oc == "fail:IO":
+        n, st = "3", f"(Some {o['io_stage'] if o.get('io_stage') in COQ_STAGES else 'Other'})"
     elif oc.startswith("fail:"):
         n, st = "2", f"(Some {oc[5:]})"
     else:
         n, st = "9", "None"
     evs = []
     for stg, kind, p in o["events"]:
-        if not (p == "R" or p == "T" or p.startswith(("R/", "T/"))):
-            continue  # outside the project root and the temporary directory (black cache, debug log)
+        if not (p == "R" or p == "T" or p.startswith(("R/", "T/", "S/"))):
+            continue  # outside the project root, the temporary directory and the emitters' logs (black cache ...)
         if kind == "mkdir":
             continue  # directory creation is compared through created/deleted
         k = "W" if kind == "write" else "D"
@@ -509,6 +551,10 @@ LAYOUTS = [  # (output package, core package) — embedded / sibling / nested / 
     ("a.b.client", "a.core"), ("a.client", "a.client.rt"), ("a.client", "a.b.core"),
     ("c1", "c1x.core"), ("pkg.api", "x.y.z.core"),
 ]
+# base names for the inner fault injection (model modules are written as <m>.tmp and renamed, hence pet.tmp)
+IO_NAMES = ["client.py", "mock_pets.py", "mock_client.py", "pets.py", "pet.tmp", "exception_aliases.py",
+            ".exception_registry.json", "http_transport.py", "plugins.py", "__init__.py", "py.typed", "config.py",
+            "README.md", "mocks", "endpoints", "models", "auth", "core"]
 EXISTING = ["none", "empty", "equal", "different", "coredifferent", "partial", "otherspec"]
 FAILS = [None] + STAGES
 
@@ -541,6 +587,14 @@ def gen_cases(rng, thorough: bool) -> list[dict]:
         out, core = rng.choice(LAYOUTS)
         cases.append(mk(out, core, rng.random() < 0.4, rng.choice(EXISTING), f"Write#{rng.randint(1, 45)}",
                         spec=rng.randint(0, 1)))
+    # failures INSIDE a stage: the OS refuses the first creation of a file / directory with this base name
+    # (what FileManager.write_file / ensure_dir, Path.write_text, open, mkdir see) — replayed on the model
+    combos = [(n, force, ex) for n in IO_NAMES for force in (False, True) for ex in ("none", "equal", "different")]
+    for (n, force, ex) in combos:
+        for (out, core) in (LAYOUTS if thorough else [rng.choice(LAYOUTS)]):
+            if thorough and rng.random() < 0.6:
+                continue
+            cases.append(mk(out, core, force, ex, "IO:" + n, spec=rng.randint(0, 1)))
     # post-processing (real ruff): only existing trees whose diff decision does not depend on ruff's output
     for _ in range(60 if thorough else 14):
         out, core = rng.choice(LAYOUTS)
@@ -575,7 +629,7 @@ def main(chk, replay: dict | None = None) -> int:
     for c in cases:
         i, o = c["input"], c["obs"]
         for key, val in (("by_mode", "force" if i["force"] else "noforce"), ("by_existing", i["existing"]),
-                         ("by_fail_at", str(i["fail_at"]).split("#")[0]), ("by_outcome", o["outcome"].split(":")[0]),
+                         ("by_fail_at", str(i["fail_at"]).split("#")[0].split(":")[0]), ("by_outcome", o["outcome"].split(":")[0]),
                          ("layouts", f"{i['out']}|{i['core']}")):
             dist[key][val] = dist[key].get(val, 0) + 1
         dist["post"] += int(i["post"])
@@ -588,17 +642,31 @@ def main(chk, replay: dict | None = None) -> int:
                     "deleted": len(c["obs"]["deleted"]), "modified": len(c["obs"]["modified"]),
                     "events": len(c["obs"]["events"])})
     midway = [c for c in cases if str(c["input"]["fail_at"]).startswith("Write#")]
-    cases = [c for c in cases if not str(c["input"]["fail_at"]).startswith("Write#")]
+    inner = [c for c in cases if str(c["input"]["fail_at"]).startswith("IO:")]
+    cases = [c for c in cases if not str(c["input"]["fail_at"]).startswith(("Write#", "IO:"))]
     dist["midstage_failures_oracle_only"] = len(midway)
-    codes = None
+    dist["inner_io_failures"] = len(inner)
+    dist["inner_io_hit_stage"] = {}
+    dist["error_log_writes_in_system_tmp"] = 0
+    for c in inner:
+        k = str(c["obs"].get("io_stage"))
+        dist["inner_io_hit_stage"][k] = dist["inner_io_hit_stage"].get(k, 0) + 1
+        dist["error_log_writes_in_system_tmp"] += sum(1 for _, _, p in c["obs"]["events"] if p.startswith("S/"))
+    codes = codes_io = None
+    if chk.model_ok:
+        codes_io = chk.coq_eval("From PG Require Import Lib.Strs Model.GenFS Corr.C10.",
+                                "(config * str * fs) * obs", [c_case(c) for c in inner], "run_io", shard=40, tag="io")
     if chk.model_ok:
         codes = chk.coq_eval("From PG Require Import Lib.Strs Model.GenFS Corr.C10.",
                              "(config * option stage * fs) * obs", [c_case(c) for c in cases], "run", shard=40)
-    for c in cases + midway:  # keep replay files small
+    for c in cases + midway + inner:  # keep replay files small
         c["obs"] = {k: v for k, v in c["obs"].items() if k != "before"}
     # mid-stage failures are not replayed on the model (its theorems cover every prefix of the operation plan);
     # with well-formed packages and no post-processing any oracle failure there is a violation
     chk.decide(midway, None, {}, "oracle only")
+    chk.decide(inner, codes_io, {1: "F10a", 2: "F10b", 3: "F10c"},
+               "Corr.C10.run_io: generate_io(model) = outcome, audit events and created/deleted paths when the OS refuses "
+               "the first creation of a chosen file or directory inside a stage")
     chk.decide(cases, codes, {1: "F10a", 2: "F10b"},
                "Corr.C10.run: generate(model) = outcome, audit events per stage (write/remove/rmtree under the project "
                "root and the temporary directory) and created/deleted paths of the sandbox project root")
